@@ -500,3 +500,31 @@ Proof.
   - intros i Hi. destruct (Fin i Hi) as (k & r & Hl & _ & Ht). rewrite <- Ht. exact (HI _ _ Hl).
   - intros l Hl. destruct (Flit l Hl) as (k & r & Hk & _ & Ht). rewrite <- Ht. exact (HI _ _ Hk).
 Qed.
+
+(* ---- the MIR carries the recorded types: every entry of the main table and of every function's table is the
+   image [entry_of] of a stored record (its type is the recorded type), every output has the type recorded for the
+   operation it names, every input entry the type recorded for its input operation *)
+Definition mir_carries_recorded_types (st : list (Z * arec)) (couts : list cout) (m : mir) : Prop :=
+  from_store st (m_ops m)
+  /\ (forall f, In f (m_functions m) -> from_store st (f_ops f))
+  /\ Forall2 (out_rel st) couts (m_outputs m)
+  /\ (forall i, In i (m_inputs m) ->
+        exists k r, lookup k st = Some r /\ r_node r = AInput (i_name i) (i_party i) (i_doc i) /\ r_ty r = i_ty i).
+
+Theorem compile_carries_recorded_types : forall st couts m fs',
+  compile st [] couts = Ok (m, fs') -> mir_carries_recorded_types st couts m.
+Proof.
+  intros st couts m fs' Hc.
+  pose proof (compile_outputs _ _ _ _ _ Hc) as Fout.
+  destruct (compile_inputs_parties _ _ _ _ _ Hc) as [Fin _].
+  unfold compile in Hc.
+  destruct (outputs_loop st [] couts [] [] (empty_cstate [])) as [[[[ops mouts] fs1] c1]| |] eqn:Hol;
+    cbn [bind] in Hc; try discriminate.
+  destruct (functions_loop (S (List.length st)) st fs1 (rev fs1) [] c1) as [[[mfuns fs2] c2]| |] eqn:Hfl;
+    cbn [bind] in Hc; try discriminate.
+  inversion Hc; subst; clear Hc. simpl in Fout, Fin |- *.
+  split; [|split; [|split; [exact Fout | exact Fin]]].
+  - intros e He. destruct (outputs_loop_entries _ _ _ _ _ _ _ _ _ _ Hol e He) as [[] | Hex]. exact Hex.
+  - pose proof (functions_loop_entries _ _ _ _ _ _ _ _ _ Hfl (Forall_nil _)) as F.
+    rewrite Forall_forall in F. exact F.
+Qed.
